@@ -2,7 +2,7 @@ CONSTANT Mode = "scale"
 CONSTANT MaxSteps = 3
 CONSTANT MaxZero = 0
 CONSTANT RowCounts = {2, 3, 4}
-CONSTANT NGen = 4
+CONSTANT NGen = 3
 SPECIFICATION Spec
 INVARIANT TypeOK
 INVARIANT Consistent
